@@ -430,7 +430,7 @@ def run_readonly(case, X, t, root, spec, rec):
         rec.cls("image-rendered")
 
 
-PARTS = [Part("ops", cases(), check, n_quick=2500, n_thorough=6000)]
+PARTS = [Part("ops", cases(), check, n_quick=2500, n_thorough=20000)]
 
 
 def _pin_p16():
